@@ -130,8 +130,50 @@ func (es *ExpressionStatement) WriteTo(cw *CodeWriter) {
 	if es.Expression == nil {
 		return
 	}
-	es.Expression.WriteTo(cw)
+	// A statement that begins with `{` or `function` would be read back as a
+	// block or a function declaration, so such expressions are parenthesised
+	if startsWithBraceOrFunction(es.Expression) {
+		// written like a GroupedExpression, so that re-formatting is stable
+		cw.WriteRune('(')
+		cw.IncreaseIndent()
+		es.Expression.WriteTo(cw)
+		cw.DecreaseIndent()
+		cw.WriteRune(')')
+	} else {
+		es.Expression.WriteTo(cw)
+	}
 	cw.WriteSemi()
+}
+
+// startsWithBraceOrFunction reports whether the first token printed for the
+// expression is an object literal's `{` or the `function` keyword.
+func startsWithBraceOrFunction(e Expression) bool {
+	for {
+		switch v := e.(type) {
+		case *ObjectLiteral, *FunctionExpression:
+			return true
+		case *BinaryExpression:
+			if v.Left.Precedence() < v.Precedence() {
+				return false // printed with parentheses
+			}
+			e = v.Left
+		case *AssignmentExpression:
+			e = v.Left
+		case *CompoundAssignmentExpression:
+			e = v.Left
+		case *CallExpression:
+			e = v.Function
+		case *MemberExpression:
+			e = v.Object
+		case *PostfixExpression:
+			if v.Left.Precedence() < PrecedencePostfix {
+				return false // printed with parentheses
+			}
+			e = v.Left
+		default:
+			return false
+		}
+	}
 }
 
 type FunctionDeclaration struct {
